@@ -53,11 +53,14 @@ ObsDRR(e) == [ parent |-> << e.drr_parent_id, e.drr_parent_created >>,
                data |-> ObsBlob(e.open_data, "drk", IF e.payload_match THEN "payload" ELSE "other-bytes", e.data_len) ]
 
 Violated(e) ==
-  LET c == Shape(e)
+  LET c0 == Shape(e)
+      \* the rows carry the WRITER's region suffix; on a cross-region read (global table) it differs from the reader's
+      c == [c0 EXCEPT !.region = e.writer_region]
       skid == SKId(c.svc, c.prod, c.region)
       ikid == IKId(c.part, c.svc, c.prod, c.region)
       rf == RowFormat(c.ch) IN
-       Rule("case-shape", c.ch \in AllChannels /\ c.dir \in AllDirections /\ (c.region = "" \/ SuffixAllowed(c.ch)))
+       Rule("case-shape", c0.ch \in AllChannels /\ c0.dir \in AllDirections /\ (c0.region = "" \/ SuffixAllowed(c0.ch))
+                          /\ (c0.region = "" => e.writer_region = "") /\ (e.writer_region # c0.region => c0.dir = "ref-to-sdk"))
   \cup Rule("sdk-operation-failed", e.sdk_ok)
   \cup Rule("sdk-returned-other-bytes", e.sdk_ok => e.sdk_match)
   \cup ToSet(e.mismatch)                                            \* base64, integer literals, syntax: found by the codec
